@@ -159,3 +159,31 @@ conn_h!(k_conn_replay__first_leaves_second_stays, |slot, slog, l1, l2, src| {
   s2.unsubscribe();
   assert!(!slot.get().unwrap().is_subscribed(), "conn.replay: the last subscriber left but the source is still subscribed");
 });
+
+conn_h!(k_conn_replay__late_subscriber_after_source_completed, |slot, slog, l1, l2, src| {
+  let rp = src.replay();
+  let o = rp.observable();
+  let _s1 = attach(&o, l1);
+  let x: u8 = kani::any();
+  slot.get().unwrap().next(x);
+  slot.get().unwrap().complete();
+  let _s2 = attach(&o, l2);
+  assert!(slog.count(EV_S) == 1, "conn.replay: the source was subscribed again for a late subscriber (the sequence would be recorded twice)");
+  assert!(l1.is(&[EV_N | x as u32, EV_C]), "conn.replay: first subscriber trace differs");
+  assert!(l2.is(&[EV_N | x as u32, EV_C]), "conn.replay: a subscriber arriving after the source completed did not get the whole sequence once, then complete");
+});
+// a cold source that emits synchronously while ref_count connects it: the first subscriber (who triggered the connect) sees the item
+#[kani::proof]
+#[kani::unwind(3)]
+fn k_conn_refcount__sync_source_reaches_first_subscriber() {
+  let slot: &'static Slot<Observer<'static, u8>> = Slot::new();
+  let l1 = Log::new();
+  let src: Observable<'static, u8> = Observable::create(move |s: Observer<'static, u8>| {
+    s.next(7);
+    slot.set(s);
+  });
+  let rc = src.ref_count();
+  let _s1 = attach(&rc.observable(), l1);
+  assert!(l1.is(&[EV_N | 7]), "conn.ref_count: the subscriber that triggered the connect missed what the source emitted while being connected");
+  kani::cover!(true, "harness reaches its end");
+}
